@@ -234,7 +234,10 @@ def replay(cfg, vecpath, run, full=False, props=None):
     recs, summary = [], None
     if os.path.exists(outpath):
         for line in open(outpath):
-            o = json.loads(line)
+            try:
+                o = json.loads(line)
+            except ValueError:
+                continue          # a line cut short by an abort of the process
             if o.get("summary"):
                 summary = o
             else:
